@@ -16,7 +16,7 @@ def decOpt (j : Json) : Except String (Option α) :=
   | Json.null => return none
   | v => do let x : α ← Wire.dec v; return some x
 
-def encOpt (o : Option α) : Json :=
+def encOptFS (o : Option α) : Json :=
   match o with
   | none => Json.null
   | some x => Wire.enc x
@@ -35,7 +35,7 @@ def bools (j : Json) (k : String) : Except String (List Bool) := do
   let a ← arr j k
   a.toList.mapM (·.getBool?)
 
-def encOpts (xs : List (Option α)) : Json := Json.arr (xs.map (encOpt α)).toArray
+def encOptsFS (xs : List (Option α)) : Json := Json.arr (xs.map (encOptFS α)).toArray
 
 def encExceptFS {β : Type} (enc : β → Json) (r : Except String β) : Json :=
   match r with
@@ -64,15 +64,15 @@ def flakeStats : Op := fun j => do
     Json.mkObj [
       ("idx", encNats idx),
       ("never", encBools nev),
-      ("tsol_states", encExceptFS (encOpts α) (solidificationTimes true thr solThr mask t Xs sTsol grp)),
-      ("tsol_stats", encExceptFS (encOpts α) (solidificationTimes false thr solThr mask t Xs sTsol grp)),
+      ("tsol_states", encExceptFS (encOptsFS α) (solidificationTimes true thr solThr mask t Xs sTsol grp)),
+      ("tsol_stats", encExceptFS (encOptsFS α) (solidificationTimes false thr solThr mask t Xs sTsol grp)),
       ("count_states", encExceptFS encNats (sigmaCounter ran times thr solThr true t Xs sTnuc sTsol)),
       ("count_stats", encExceptFS encNats (sigmaCounter ran times thr solThr false t Xs sTnuc sTsol))]
   return Json.mkObj [
-    ("tnuc_states", encOpts α (nucleationTimes true mask t Xs sTnuc grp)),
-    ("tnuc_stats", encOpts α (nucleationTimes false mask t Xs sTnuc grp)),
-    ("Tnuc_states", encOpts α (nucleationTemperatures true mask XT Xs sTemp grp)),
-    ("Tnuc_stats", encOpts α (nucleationTemperatures false mask XT Xs sTemp grp)),
+    ("tnuc_states", encOptsFS α (nucleationTimes true mask t Xs sTnuc grp)),
+    ("tnuc_stats", encOptsFS α (nucleationTimes false mask t Xs sTnuc grp)),
+    ("Tnuc_states", encOptsFS α (nucleationTemperatures true mask XT Xs sTemp grp)),
+    ("Tnuc_stats", encOptsFS α (nucleationTemperatures false mask XT Xs sTemp grp)),
     ("timeIdx", encNats (times.map (timeIdx t))),
     ("perThr", Json.arr perThr.toArray)]
 
